@@ -94,6 +94,38 @@ def sub_agree(case):
                 if k.address != a:
                     devs.append({'sig': 'agree|address_differs_from_reference_sorted_multisig|%s' % wt,
                                  'detail': {'case': case, 'path': k.path, 'cid': cid, 'address': k.address, 'expected': a}})
+        # the same paths reached through get_key / get_keys / new_key with an explicit cosigner index (legacy wallets:
+        # the index is part of the path, so every cosigner wallet must land on the same branch for the same request)
+        if wt == 'legacy':
+            for cid in range(n):
+                for how in ('get_key', 'get_keys', 'new_key'):
+                    try:
+                        if how == 'get_key':
+                            ks = [w.get_key(cosigner_id=cid)]
+                        elif how == 'get_keys':
+                            ks = w.get_keys(cosigner_id=cid, number_of_keys=2)
+                        else:
+                            ks = [w.new_key(cosigner_id=cid)]
+                    except Exception as e:
+                        devs.append({'sig': 'agree|%s_with_cosigner_id_raises|%s' % (how, wt),
+                                     'detail': {'case': case, 'cid': cid, 'exc': repr(e)[:200]}})
+                        continue
+                    for k in ks:
+                        parts = k.path.split('/')
+                        try:
+                            pc, chg, idx = int(parts[2]), int(parts[3]), int(parts[4])
+                        except (ValueError, IndexError):
+                            pc = chg = idx = None
+                        nt.append('%s|%d%d|%s|%d|%s%d%s' % (wt, m, n, ''.join(map(str, order)), holder, how, cid, k.path))
+                        if pc != cid:
+                            devs.append({'sig': 'agree|%s_returns_key_of_another_cosigner_branch|%s' % (how, wt),
+                                         'detail': {'case': case, 'requested_cosigner_id': cid, 'path': k.path}})
+                            continue
+                        a, spk, redeem = _ref(wt, m, n, seed, chg, idx, cid)
+                        if k.address != a:
+                            devs.append({'sig': 'agree|address_differs_from_reference_sorted_multisig|%s' % wt,
+                                         'detail': {'case': case, 'path': k.path, 'cid': cid, 'address': k.address, 'expected': a,
+                                                    'how': how}})
         # default keys handed out by get_key() must also be one of the reference addresses of some cosigner index
         k = w.get_key()
         cand = [_ref(wt, m, n, seed, 0, 0, c)[0] for c in (range(n) if wt == 'legacy' else [0])]
